@@ -91,9 +91,60 @@ def random_history(r, kind, cap, length):
     return h
 
 
+OPTION_KINDS = ["maybe", "either", "tuple", "maybe_vec"]
+
+
+def export_option_histories(kind, tier):
+    cfg = f"GenOptions_{kind}_{tier}"
+    key = vlib.spec_hash("GenOptions", cfg)[:16]
+    path = os.path.join(vlib.GEN, f"{cfg}.{key}.ndjson")
+    if not os.path.exists(path):
+        r = vlib.tlc("GenOptions", cfg, workers=1, timeout=1400)
+        hs = [json.loads(json.loads(l.strip()))["h"] for l in r["out"].splitlines() if l.strip().startswith('"{')]
+        if not hs: raise vlib.Inconclusive("option history export failed: " + r["out"][-1200:])
+        with open(path + ".tmp", "w") as f:
+            for h in hs: f.write(json.dumps(h, separators=(",", ":")) + "\n")
+        os.replace(path + ".tmp", path)
+        vlib.log(f"[gen] {cfg}: {len(hs)} histories, {r['wall']:.1f}s")
+    return [json.loads(l) for l in open(path)]
+
+
+def maybe_nontrivial_payload(case):
+    """maybe<utl::vector<int>>: an engaged optional over a non-trivially-destructible payload (same root as the either finding)"""
+    return case.get("kind") == "maybe_vec" and any(a["op"] in ("ctor_val", "assign_val") and a.get("tag") == "left" for a in case.get("h", []))
+
+
+def run_options(ck, tier):
+    drv = vlib.build_driver("drv_options")
+    total = 0
+    for kind in OPTION_KINDS:
+        ck.add_mc(vlib.tlc_model_check("Options", f"MC_Options_{kind}_{tier}", workers=4, timeout=2400))
+        hs = export_option_histories(kind, tier)
+        cases = [dict(id=i + 1, kind=kind, h=h) for i, h in enumerate(hs)]
+        total += len(cases)
+        files = vlib.run_driver(drv, cases, ck.workdir, "opt_" + kind)
+        mism, st = vlib.validate_traces("TraceOptions", files, cfg=f"TraceOptions_{kind}")
+        ck.add_trace_stats(st, len(cases))
+        by_id = {c["id"]: c for c in cases}
+        seen = set()
+        for m in mism:
+            ev = m["event"]; case = by_id.get(ev.get("id"), {})
+            if ev.get("id") in seen: continue
+            seen.add(ev.get("id"))
+            k = ev.get("k", len(case.get("h", [])))
+            prefix = case.get("h", [])[:k + 1]
+            why = m["why"]
+            kindf = "crash" if ev.get("e") == "crash" else ("leak" if "ledger" in why or (ev.get("proj") == m["expect"].get("proj") and ev.get("e") == "step") else "state_differs")
+            ck.mismatch(canon([kind, prefix[-1] if prefix else None, kindf]), kindf, dict(kind=kind, h=prefix), m["expect"], {x: ev.get(x) for x in ("proj", "allocs", "bad_free", "res")},
+                        what=f"utl::{kind}: {why}", driver="drv_options")
+        ck.sample(dict(kind=kind, h=hs[min(3, len(hs) - 1)]))
+    return total
+
+
 def run(tier, seed):
     ck = Check("C19", tier, seed)
     ck.preds.update(PREDS)
+    ck.preds["c19_maybe_nontrivial_payload"] = maybe_nontrivial_payload
     quick = tier == "quick"
     cap = 2 if quick else 3
     drv = vlib.build_driver("drv_containers")
@@ -124,19 +175,29 @@ def run(tier, seed):
             ck.mismatch(key, kindf, dict(kind=kind, cap=cap, elem=case.get("elem"), h=prefix), m["expect"], {x: ev.get(x) for x in ("proj", "allocs", "bad_free", "res")},
                         what=f"{kind} (cap {cap}): {why}", driver="drv_containers")
         for c in cases[:1]: ck.sample(dict(kind=kind, cap=cap, h=c["h"]))
+    total_hist += run_options(ck, tier)
     ck.nontrivial_count = total_hist
     ck.rule = ("histories = one per explored transition of the container machine (TLC, 2 objects, values {1,2}, capacity/threshold "
                f"{cap}, history length <= {4 if quick else 6}, states identified by sizes, liveness and hidden state), i.e. a transition tour over every (state, action) pair, for "
                "utl::vector, utl::static_vector, small_vector and utl::array with int and double elements, plus seeded random histories of length 8..200; after every action the size and all "
                "elements of both objects and the allocator ledger are compared with the specification; non-trivial = every history (each ends in a distinct transition)")
     ck.exhaustive = True
-    ck.assumptions += ["maybe / either / tuple histories are covered by the option-machine part (see DESIGN.md); non-trivial element types inside maybe/either are a known finding class",
+    ck.assumptions += ["maybe / either / tuple are covered by the option machine (Options.tla): trivially copyable payloads and maybe<utl::vector<int>>; either over non-trivial alternatives is exercised through small_vector",
                        "small_vector's dynamic alternative is std::vector under the default configuration, so its allocations are not in the ledger"]
     return ck.finish()
 
 
 def replay(rec):
     case = dict(rec["case"]); case["id"] = 1
+    if case.get("kind") in OPTION_KINDS:
+        drv = vlib.build_driver("drv_options")
+        wd = os.path.join(vlib.BUILD, "replay"); os.makedirs(wd, exist_ok=True)
+        files = vlib.run_driver(drv, [case], wd, "replay", nproc=1)
+        mism, st = vlib.validate_traces("TraceOptions", files, cfg=f"TraceOptions_{case['kind']}")
+        print("history:", canon(case["h"]))
+        for m in mism[:3]: print("MISMATCH at step", m["event"].get("k"), m["why"], "expected", canon(m["expect"]), "observed", canon({x: m["event"].get(x) for x in ("proj", "allocs")}))
+        print("replay:", "mismatch reproduced on the current tree" if mism else "no mismatch on the current tree")
+        return 1 if mism else 0
     drv = vlib.build_driver("drv_containers")
     wd = os.path.join(vlib.BUILD, "replay"); os.makedirs(wd, exist_ok=True)
     files = vlib.run_driver(drv, [case], wd, "replay", nproc=1)
